@@ -129,6 +129,25 @@ func SortS(xs []int, less func(a, b int) bool) []int {
 	return out
 }
 
+// WindowS is the reference of a sequence zipped with itself at offsets 0..j (a lazy list
+// used several times as an operand of one combinator): out[i] = f(xs[i : i+j+1]) for every i
+// with i+j < len(xs).
+func WindowS(xs []int, j int, f func(w []int) int) []int {
+	out := []int{}
+	for i := 0; i+j < len(xs); i++ {
+		out = append(out, f(xs[i:i+j+1]))
+	}
+	return out
+}
+
+// SelfConcatS is xs followed by xs[j:] (Combine(l, l.Tail()^j)).
+func SelfConcatS(xs []int, j int) []int {
+	if j > len(xs) {
+		j = len(xs)
+	}
+	return ConcatS(xs, xs[j:])
+}
+
 func EqualS(a, b []int) bool {
 	if len(a) != len(b) {
 		return false
@@ -400,6 +419,70 @@ func PartBoth(up P, p func(int) bool) P {
 			v := rest[0]
 			rest = rest[1:]
 			return v, true
+		}
+		return 0, false
+	}
+}
+
+// Window models one memoised sequence used at the offsets 0..j of one zip: the j-fold Tail is
+// taken when the stage is constructed (an upper bound: at most j elements are consumed
+// there), every element is pulled once and kept, output i = f(x[i..i+j]) needs x[i+j].
+func Window(up P, j int, f func(w []int) int) P {
+	buf := []int{}
+	done := false
+	fill := func(n int) bool {
+		for !done && len(buf) < n {
+			v, ok := up()
+			if !ok {
+				done = true
+				break
+			}
+			buf = append(buf, v)
+		}
+		return len(buf) >= n
+	}
+	fill(j)
+	i := 0
+	return func() (int, bool) {
+		if !fill(i + j + 1) {
+			return 0, false
+		}
+		v := f(buf[i : i+j+1])
+		i++
+		return v, true
+	}
+}
+
+// SelfConcat models Combine(l, l.Tail()^j) over one memoised sequence: the elements of up
+// (kept while they pass), then the kept elements from index j on. The j-fold Tail is taken at
+// construction (at most j elements consumed there).
+func SelfConcat(up P, j int) P {
+	buf := []int{}
+	done := false
+	pull := func() bool {
+		if done {
+			return false
+		}
+		v, ok := up()
+		if !ok {
+			done = true
+			return false
+		}
+		buf = append(buf, v)
+		return true
+	}
+	for len(buf) < j && pull() {
+	}
+	i := 0      // next element of the first pass
+	k := j      // next element of the replay
+	return func() (int, bool) {
+		if i < len(buf) || pull() {
+			i++
+			return buf[i-1], true
+		}
+		if k < len(buf) {
+			k++
+			return buf[k-1], true
 		}
 		return 0, false
 	}
